@@ -8,7 +8,8 @@ Open Scope N_scope.
 Inductive stdstream := StTcp | StUnix | StInvalid.
 Record settings := { starttls : bool; std_stream : option stdstream; has_timeout : bool }.
 Inductive tlsmode := Plain | StartTls | Ldaps.
-Inductive serr := EEmptyUnixPath | EPortInUnixPath | EMismatched | EUnknownScheme.
+Inductive serr := EEmptyUnixPath | EPortInUnixPath | EMismatched | EUnknownScheme
+  | EStartTlsUnix.   (* repair F27: StartTLS asked for on an ldapi URL - TLS cannot be layered over the Unix socket here, and a cleartext handle would be a silent downgrade *)
 Inductive plan :=
 | PPanic                                   (* panic!("unexpected None from url.host_str()") *)
 | PErr (e : serr)
@@ -17,12 +18,13 @@ Inductive plan :=
 | PUnix (path : list byte)
 | PPreUnix.
 
-Record fixes18 := { fix12 : bool; fix13 : bool }.
+Record fixes18 := { fix12 : bool; fix13 : bool; fix27 : bool }.
 Definition contains_colon (s : list byte) : bool := existsb (fun c => beq c ":"%byte) s.
 Local Open Scope string_scope.
 
 Definition plan_of (fx : fixes18) (scheme : list byte) (host : option (list byte)) (port : option N) (st : settings) : plan :=
   if beqs scheme (s2b "ldapi") then
+    if fix27 fx && starttls st then PErr EStartTlsUnix else
     match std_stream st with
     | None =>
         let path := match host with Some h => h | None => [] end in
@@ -52,8 +54,8 @@ Definition plan_of (fx : fixes18) (scheme : list byte) (host : option (list byte
     else if beqs scheme (s2b "ldaps") then go Ldaps 636
     else PErr EUnknownScheme.
 
-Definition as_is18 := {| fix12 := false; fix13 := false |}.
-Definition repaired18 := {| fix12 := true; fix13 := true |}.
+Definition as_is18 := {| fix12 := false; fix13 := false; fix27 := false |}.
+Definition repaired18 := {| fix12 := true; fix13 := true; fix27 := true |}.
 Definition dflt := {| starttls := false; std_stream := None; has_timeout := false |}.
 
 (* the code as it is: *)
@@ -63,7 +65,7 @@ Proof. vm_compute. reflexivity. Qed.
 
 (* the repaired code: *)
 Theorem c18_total sch h p st : plan_of repaired18 sch h p st <> PPanic.
-Proof. unfold plan_of. cbn [fix12 fix13 repaired18]. repeat match goal with |- context [match ?x with _ => _ end] => destruct x end; try discriminate; intros H; discriminate H. Qed.
+Proof. unfold plan_of. cbn [fix12 fix13 fix27 repaired18]. repeat match goal with |- context [match ?x with _ => _ end] => destruct x end; try discriminate; intros H; discriminate H. Qed.
 Theorem c18_ldap_default_port h hs st : std_stream st = None ->
   plan_of repaired18 (s2b "ldap") (Some (h :: hs)) None st = PTcp (h :: hs) 389 (if starttls st then StartTls else Plain) (has_timeout st).
 Proof. intros E. unfold plan_of. cbn. now rewrite E. Qed.
@@ -74,17 +76,23 @@ Theorem c18_missing_host_localhost st p : std_stream st = None ->
   plan_of repaired18 (s2b "ldap") None p st = PTcp (s2b "localhost") (match p with Some x => x | None => 389 end) (if starttls st then StartTls else Plain) (has_timeout st)
   /\ plan_of repaired18 (s2b "ldap") (Some []) p st = PTcp (s2b "localhost") (match p with Some x => x | None => 389 end) (if starttls st then StartTls else Plain) (has_timeout st).
 Proof. intros E. unfold plan_of. cbn. rewrite E. now split. Qed.
-Theorem c18_ldapi_port_rejected h hs n st : std_stream st = None -> plan_of repaired18 (s2b "ldapi") (Some (h :: hs)) (Some n) st = PErr EPortInUnixPath.
-Proof. intros E. unfold plan_of. cbn. rewrite E. now rewrite orb_true_r. Qed.
-Theorem c18_ldapi_empty st p : std_stream st = None -> plan_of repaired18 (s2b "ldapi") None p st = PErr EEmptyUnixPath.
-Proof. intros E. unfold plan_of. cbn. now rewrite E. Qed.
+Theorem c18_ldapi_port_rejected h hs n st : std_stream st = None -> starttls st = false -> plan_of repaired18 (s2b "ldapi") (Some (h :: hs)) (Some n) st = PErr EPortInUnixPath.
+Proof. intros E S. unfold plan_of. cbn. rewrite E, S. now rewrite orb_true_r. Qed.
+Theorem c18_ldapi_empty st p : std_stream st = None -> starttls st = false -> plan_of repaired18 (s2b "ldapi") None p st = PErr EEmptyUnixPath.
+Proof. intros E S. unfold plan_of. cbn. now rewrite E, S. Qed.
+(* F27: StartTLS asked for together with an ldapi URL is refused - whatever else the URL and the settings say (also with a pre-opened socket);
+   as found the setting was ignored and a cleartext connection returned *)
+Theorem c17_ldapi_starttls_rejected h p st : starttls st = true -> plan_of repaired18 (s2b "ldapi") h p st = PErr EStartTlsUnix.
+Proof. intros S. unfold plan_of. cbn. now rewrite S. Qed.
+Lemma c17_refuted_F27 : plan_of {| fix12 := true; fix13 := true; fix27 := false |} (s2b "ldapi") (Some (s2b "%2ftmp%2fsock")) None {| starttls := true; std_stream := None; has_timeout := false |} = PUnix (s2b "/tmp/sock").
+Proof. vm_compute. reflexivity. Qed.
 Theorem c18_mismatched fx h p st :
   (std_stream st = Some StUnix \/ std_stream st = Some StInvalid -> exists e, plan_of fx (s2b "ldap") (Some (s2b "h")) p st = PErr e) /\
-  (std_stream st = Some StTcp \/ std_stream st = Some StInvalid -> plan_of fx (s2b "ldapi") h p st = PErr EMismatched).
-Proof. split; intros [E|E]; unfold plan_of; cbn; rewrite E; try reflexivity; eexists; reflexivity. Qed.
+  (std_stream st = Some StTcp \/ std_stream st = Some StInvalid -> starttls st = false -> plan_of fx (s2b "ldapi") h p st = PErr EMismatched).
+Proof. split; [intros [E|E]|intros [E|E] S]; unfold plan_of; cbn; rewrite ?S, ?andb_false_r, E; try reflexivity; eexists; reflexivity. Qed.
 Theorem c18_unknown_scheme fx sch h p st : beqs sch (s2b "ldap") = false -> beqs sch (s2b "ldaps") = false -> beqs sch (s2b "ldapi") = false ->
   plan_of fx sch h p st = PErr EUnknownScheme.
 Proof. intros E1 E2 E3. unfold plan_of. now rewrite E3, E1, E2. Qed.
-Theorem c18_ldapi_decodes_path h hs st : std_stream st = None -> contains_colon (h :: hs) = false ->
+Theorem c18_ldapi_decodes_path h hs st : std_stream st = None -> starttls st = false -> contains_colon (h :: hs) = false ->
   plan_of repaired18 (s2b "ldapi") (Some (h :: hs)) None st = PUnix (pdec (h :: hs)).
-Proof. intros E Hc. unfold plan_of. cbn [beqs]. change (beqs (s2b "ldapi") (s2b "ldapi")) with true. cbv iota. rewrite E, Hc. reflexivity. Qed.
+Proof. intros E S Hc. unfold plan_of. cbn [beqs]. change (beqs (s2b "ldapi") (s2b "ldapi")) with true. cbv iota. rewrite S, andb_false_r, E, Hc. reflexivity. Qed.
